@@ -25,7 +25,8 @@
     (`stopping`, at most `D`) — or crashes there (`stopping true`: "dictionary changed size during
     iteration", finding C20-F4) and ends `failed`.
   * Escalation edges AS THE CODE HAS THEM:
-      worker failed     → its watcher (`werr`, `creq`)  → the watcher ends `failed` (RuntimeError);
+      worker failed     → its watcher (`werr`; `creq` when it streams, `stopping true` when it is already depleting its
+        workers — `cfg.deplEscalates = true`, since /repo 69d1957)  → the watcher ends `failed` (RuntimeError);
       watcher of a root observer failed  = that root task failed → `run_tasks` stops everything;
       ensemble task failed → the orchestrator (its done-callback): it is cancelled, stops the streams and ends
         `failed` with that error — `cfg.fixed = true`, THE MODEL OF THE CURRENT TREE (since /repo 9ef1bcb);
@@ -40,9 +41,28 @@
     peering withdrawal (`W`), exit stoppers of daemons (`D` = max `cancellation_backoff +
     cancellation_timeout`), the cleanup activity (`C`, an ASSUMED bound: kopf sets none),
     hung tasks (`H` = the hard-coded 5 s of `run_tasks`).
-  Not modelled: a second cancellation of `operator()` while it is already stopping (one stop trigger
-  per run), the liveness endpoint and `_command` tasks, failures of the orchestrator's own loop,
-  which worker spawned which daemon, which root task left which orphan behind.
+  Cancellations of `operator()` itself, AS THE CURRENT TREE HANDLES THEM (`rtCancel`): while `run_tasks` waits for the first
+  root task (or `spawn_tasks` sits in its final `sleep(0)`: since /repo d6da86b the same two stops follow), while it waits
+  for the hung tasks, and — since /repo 883284c, `cfg.stopSwept` — while it stops the root tasks after a stop flag or a
+  failure: `stop(root_tasks, cancelled=True)` cancels every root task that is still alive A SECOND TIME. What that does,
+  per task, as in the code: `queueing.watcher` (observers, ensemble watchers) and — since /repo ab6fb15,
+  `cfg.orchShielded` — the orchestrator shield their `finally:` / `except:` and suppress it; the daemon killer's
+  `finally:` (`await scheduler.wait()`) is interrupted: it ends CANCELLED at once and leaves its exit stoppers behind
+  as hung tasks (`rootEnd daemonKiller cancelled` from `stopping`, ghost `killerCut`); `startup_cleanup_activities`
+  is interrupted wherever it waits (`scCut`: "Cleanup activity is not executed at all / only partially executed due to
+  cancellation") — the cleanup handlers are skipped or cut short BY DESIGN (deviation C20-D4).
+  HISTORICAL variants (`Label.leaves`: the labels `orchAbandon`, `spawnCancel`, `stopCancel` set the flag `abandoned`
+  and the model describes nothing after them): `orchShielded = false` (before ab6fb15, finding C20-F8: a SECOND
+  cancellation of the orchestrator while it stops its ensemble), `spawnSwept = false` (before d6da86b, C20-F10: a
+  cancellation of `operator()` inside `spawn_tasks`), `stopSwept = false` (before 883284c, C20-F11: … while `run_tasks`
+  stops the root tasks), `deplEscalates = false` (before 69d1957, C20-F5: a worker failing while its watcher depletes
+  is only logged). None of these labels is enabled in the model of the current tree (`head_never_abandoned`).
+  Not modelled: a cancellation of `startup_cleanup_activities` inside `stop(core_tasks)` after a FAILED startup (it would
+  replace the startup failure), a further cancellation of an `operator()` that is already inside one of its `stop(…, cancelled=True)`
+  (`aiotasks.stop` gives up by design: "double-cancelling") or inside the final `stop(hung_pending)` (instantaneous
+  in a cooperative run), the liveness endpoint and `_command` tasks,
+  `settings.process.ultimate_exiting_timeout` (the armed SIGKILL of `ultimate_termination`), failures of the
+  orchestrator's own loop, which worker spawned which daemon, which root task left which orphan behind.
 -/
 namespace Kopf.C20
 
@@ -180,7 +200,13 @@ structure Cfg where
   fixed : Bool   -- the variant with the edge "failed ensemble task → orchestrator"
   coreWatched : Bool  -- the edge "failed core task → a root task": TRUE is the current tree (since /repo ed52a1a, C20-F6)
   orchShielded : Bool -- the orchestrator shields the stop of its ensemble from a SECOND cancellation, as `queueing.watcher`
-                      -- shields its depletion: FALSE is the current tree (finding C20-F8), TRUE the proposed repair
+                      -- shields its depletion: TRUE is the current tree (since /repo ab6fb15, repair of C20-F8)
+  spawnSwept : Bool   -- `spawn_tasks` stops the tasks it has created when it is cancelled in its final `sleep(0)`, and
+                      -- `operator()` sweeps their leftovers: TRUE is the current tree (since /repo d6da86b, repair of C20-F10)
+  stopSwept : Bool    -- `run_tasks` handles a cancellation that comes while it stops the root tasks (`stop(root_pending)`):
+                      -- TRUE is the current tree (since /repo 883284c, repair of C20-F11)
+  deplEscalates : Bool -- `queueing.watcher` re-checks `worker_error` after the depletion of its workers and raises the
+                      -- RuntimeError it has not raised yet: TRUE is the current tree (since /repo 69d1957, repair of C20-F5)
   E : Nat        -- settings.queueing.exit_timeout
   W : Nat        -- bound of the peering withdrawal (retries of one PATCH)
   D : Nat        -- bound of one exit stopper: max (cancellation_backoff + cancellation_timeout) over daemons
@@ -223,10 +249,14 @@ structure State where
   waiter : Bool                   -- the `stop-flag waiter` helper task is alive
   orphans : Nat                   -- helper tasks left behind by cancelled root tasks (e.g. `as_completed` children)
   killed : Bool                   -- `daemon_killer`'s `finally:` ran (exit stoppers spawned)
+  killerCut : Bool                -- ghost: `daemon_killer`'s `finally:` was interrupted by a SECOND cancellation (it did not
+                                  -- wait for its exit stoppers)
   orchErr : Bool                  -- (fixed variant) the orchestrator was cancelled by a failed ensemble task
   t0 : Option Nat                 -- when `run_tasks` began to stop the root tasks
-  abandoned : Bool                -- the orchestrator was cancelled a SECOND time while stopping its ensemble (unshielded variant):
-                                  -- from here on the model does NOT describe the code (finding C20-F8), see `orchAbandon`
+  abandoned : Bool                -- (HISTORICAL variants only) the run has LEFT THE MODEL: the orchestrator was cancelled a SECOND
+                                  -- time while stopping its ensemble (`orchAbandon`, C20-F8), `operator()` was cancelled inside
+                                  -- `spawn_tasks` (`spawnCancel`, C20-F10) or while `run_tasks` was stopping the root tasks
+                                  -- (`stopCancel`, C20-F11): from here on the model does NOT describe the (old) code
   tFail : Option Nat              -- ghost: when the first ESCALATING failure of a task happened (see `markFail`)
   failWho : Option Task           -- ghost: whose failure that was (startup: `startupCleanup`; core task: `coreWatcher`)
   orchStopAt : Option Nat         -- ghost: when the orchestrator began to stop its ensemble
@@ -251,7 +281,7 @@ def init : State :=
     wk := fun _ => none, nWorkers := 0, dm := fun _ => .absent, nDaemons := 0,
     coop := fun _ => false, stopReq := fun _ => false, withdrawnOk := fun _ => false, abandoned := false, tFail := none, failWho := none, orchStopAt := none,
     core := .waitingFlag, coreCreq := false, started := false, ready := false,
-    sc := .init, rt := .waiting, stopFlagSet := false, waiter := true, orphans := 0, killed := false,
+    sc := .init, rt := .waiting, stopFlagSet := false, waiter := true, orphans := 0, killed := false, killerCut := false,
     orchErr := false, t0 := none, exitAt := none, result := none,
     acts := 0, startupDone := false, startupFailed := false, startupRaised := false, cleanupBegun := false,
     rootFailed := false, hungFailed := false }
@@ -266,6 +296,7 @@ inductive Label where
   | ready
   | scWake
   | scWaitRootsEnd
+  | scCut
   | scStopCore
   | scCoreStopped
   | scCleanupEnd (o : Pend)
@@ -294,6 +325,8 @@ inductive Label where
   | act (a : Actor)
   -- run_tasks
   | orchAbandon
+  | spawnCancel
+  | stopCancel
   | hungFail
   | rtStopRoots
   | rtCancel
@@ -344,12 +377,14 @@ def cancelRoots (s : State) : Task → Bool
   | t => s.creq t
 
 /-- what `run_tasks`' `stop(root tasks)` reaches, per task as in the code: `queueing.watcher` (observers, ensemble watchers)
-    shields its `finally:` and suppresses a second cancellation; `daemon_killer` is cancelled only once (by this very call);
-    the ORCHESTRATOR, however, may already be stopping its ensemble — cancelled by the done-callback of a failed ensemble
-    task — inside an unshielded `await aiotasks.stop(...)`: unless the variant `orchShielded`, the second cancellation reaches it -/
+    shields its `finally:` and suppresses a repeated cancellation; so does the ORCHESTRATOR (which may already be stopping its
+    ensemble — cancelled by the done-callback of a failed ensemble task) in the variant `orchShielded` (the current tree);
+    `daemon_killer`'s `finally:` is NOT shielded: a repeated cancellation (`rtCancel` while `run_tasks` stops the root
+    tasks — on the first call the killer cannot be in its `finally:` yet) reaches it -/
 def cancelRootsV (cfg : Cfg) (s : State) : Task → Bool
   | .root r => cancelRoots s (.root r)
       || (!cfg.orchShielded && decide (r = .orchestrator) && (s.st (.root .orchestrator)).isStopping)
+      || (decide (r = .daemonKiller) && (s.st (.root .daemonKiller)).isStopping)
   | t => s.creq t
 
 /-- the orchestrator's `stop(ensemble tasks)` -/
@@ -406,9 +441,9 @@ def deadlinesAllow (cfg : Cfg) (s : State) (n : Nat) : Bool :=
 def failTS (fail : Bool) : TS := if fail then .failed else .cancelled
 
 /-- ghost: remember the time of the FIRST failure that the modelled code escalates (a failing stream or task whose
-    owner is still listening; NOT an HTTP 404 of a gone resource, NOT a worker failing while its watcher is already
-    in its `finally:`, NOT a failing cleanup; an ensemble task only in the variant `fixed`, the core task only in
-    the variant `coreWatched`) -/
+    owner is still listening; NOT an HTTP 404 of a gone resource, NOT a failing cleanup; a worker failing while its watcher
+    is already in its `finally:` only in the variant `deplEscalates`, an ensemble task only in the variant `fixed`, the
+    core task only in the variant `coreWatched`) -/
 def markFail (s : State) : Option Nat :=
   match s.tFail with
   | some t => some t
@@ -468,8 +503,25 @@ def step (cfg : Cfg) (s : State) : Label → Option State
       some { s with sc := .waitRoots, creq := upd s.creq (.root .startupCleanup) false }
     else none
   | .scWaitRootsEnd =>
-    if s.rt ≠ .exited ∧ s.sc = .waitRoots ∧ othersEnded s = true then
+    -- (a pending — repeated — cancellation wins over the end of the wait: `scCut`)
+    if s.rt ≠ .exited ∧ s.sc = .waitRoots ∧ othersEnded s = true ∧ s.creq (.root .startupCleanup) = false then
       some { s with sc := .stopCore .none }
+    else none
+  | .scCut =>
+    -- a REPEATED cancellation (the first one woke the task up) reaches `startup_cleanup_activities` where it waits:
+    --   in `wait(other root tasks)`: "Cleanup activity is not executed at all due to cancellation." → `finally: stop(core_tasks)`;
+    --   in `stop(core_tasks)`: the same message, the task ends at once (a core task still stopping is left to the hung-task stop);
+    --   in `vault.close()`: "Cleanup activity is only partially executed due to cancellation."
+    -- (in the cleanup activity itself: `scCleanupEnd cancelled`). The cleanup handlers are skipped BY DESIGN (deviation C20-D4).
+    if s.rt ≠ .exited ∧ s.creq (.root .startupCleanup) = true then
+      match s.sc with
+      | .waitRoots => some { s with sc := .stopCore .cancelled, creq := upd s.creq (.root .startupCleanup) false }
+      | .coreStopping p =>
+        -- (NOT modelled: after a FAILED startup activity — `p = failed`, whose `finally:` is this very stop — the cancellation would
+        --  replace the startup failure; the window is the one or two loop iterations the core task needs to end)
+        if p ≠ .failed then some { s with sc := .over .cancelled, creq := upd s.creq (.root .startupCleanup) false } else none
+      | .closing => some { s with sc := .over .cancelled, creq := upd s.creq (.root .startupCleanup) false }
+      | _ => none
     else none
   | .scStopCore =>
     if s.rt ≠ .exited then
@@ -592,7 +644,12 @@ def step (cfg : Cfg) (s : State) : Label → Option State
           else none
         -- `await scheduler.wait()`: until every exit stopper is over — a cooperative daemon has exited by then,
         -- the others are given up ("orphaned") after their timeouts; a crashed `finally:` (C20-F4) awaits nothing
-        | .stopping f _ => if how = failTS f ∧ (f = false → coopStopped s = true) then some fin else none
+        | .stopping f _ =>
+          if how = failTS f ∧ (f = false → coopStopped s = true) then some fin
+          -- a REPEATED cancellation interrupts `await scheduler.wait()`: the killer ends cancelled at once, its exit stoppers
+          -- (and the daemons they are stopping) are left to the hung-task stop of `run_tasks`
+          else if how = .cancelled ∧ f = false ∧ s.creq (.root r) = true then some { fin with killerCut := true }
+          else none
         | _ => none
       | .observer =>
         if noLiveWorkerOf s (.root r) = true then
@@ -707,7 +764,21 @@ def step (cfg : Cfg) (s : State) : Label → Option State
                                    else s.tFail,
                           failWho := if (match o with | .root _ => true | .sub _ => cfg.fixed) = true then markWho s o
                                      else s.failWho }
-          -- the watcher is already in its `finally:` (or has a first error): the failure is only logged
+          -- the watcher is already in its `finally:` (the cancellation by `exception_handler` is suppressed there): since /repo
+          -- 69d1957 (`deplEscalates`) it re-checks `worker_error` after the depletion and raises the RuntimeError then — whatever
+          -- exception was in flight (a cancellation, the stream's own error, HTTP 404: the watcher is not "gone" any more)
+          else if cfg.deplEscalates = true ∧ s.werr o = false then
+            match s.st o with
+            | .stopping _ (some dl) =>      -- (a watcher's `finally:` always has its deadline: `exit_timeout`)
+              some { s with wk := upd s.wk w (some (o, .failed)), werr := upd s.werr o true,
+                            st := upd s.st o (.stopping true (some dl)),
+                            gone := (match o with | .sub i => upd s.gone i false | .root _ => s.gone),
+                            tFail := if (match o with | .root _ => true | .sub _ => cfg.fixed) = true then markFail s
+                                     else s.tFail,
+                            failWho := if (match o with | .root _ => true | .sub _ => cfg.fixed) = true then markWho s o
+                                       else s.failWho }
+            | _ => some { s with wk := upd s.wk w (some (o, .failed)) }
+          -- a second error, or the historical variant: the failure is only logged
           else some { s with wk := upd s.wk w (some (o, .failed)) }
       | _ => none
     else none
@@ -744,13 +815,30 @@ def step (cfg : Cfg) (s : State) : Label → Option State
     else none
   -- ---------------------------------------------------------------- run_tasks
   | .orchAbandon =>
-    -- the second cancellation interrupts the orchestrator's `await aiotasks.stop(ensemble tasks)`: it ends CANCELLED at once,
-    -- its ensemble is orphaned, the recorded `task_error` is dropped. From here on the model does not follow the code
-    -- (the labels stay enabled as if the stop had been shielded; every theorem about what happens next is guarded by
-    -- `abandoned = false`, and the trace comparison stops at this label): finding C20-F8.
+    -- HISTORICAL (variant `orchShielded := false`, the tree before /repo ab6fb15; finding C20-F8): the second cancellation
+    -- interrupted the orchestrator's `await aiotasks.stop(ensemble tasks)`: it ended CANCELLED at once, its ensemble was
+    -- orphaned, the recorded `task_error` dropped. From here on the model does not follow that old code (the labels stay
+    -- enabled as if the stop had been shielded; the trace comparison stops at this label).
     if s.rt ≠ .exited ∧ cfg.orchShielded = false ∧ (s.st (.root .orchestrator)).isStopping = true
         ∧ s.creq (.root .orchestrator) = true then
       some { s with abandoned := true, creq := upd s.creq (.root .orchestrator) false }
+    else none
+  | .spawnCancel =>
+    -- HISTORICAL (variant `spawnSwept := false`, the tree before /repo d6da86b; finding C20-F10): `operator()` was cancelled while
+    -- `spawn_tasks` sat in its final `await asyncio.sleep(0)` — one loop iteration after the call, before `run_tasks` exists (the
+    -- tasks created a moment ago may already have run their first segments: the startup handlers, the guards): the cancellation
+    -- ended `operator()` at once, the root tasks and the core task were returned to nobody and ran on. The model stops describing
+    -- that old code. (In the current tree the same two stops follow as in `run_tasks`: the cancellation is an `rtCancel`.)
+    if s.rt = .waiting ∧ cfg.spawnSwept = false ∧ s.now = 0 ∧ anyRootEnded s = false ∧ s.stopFlagSet = false then
+      some { s with abandoned := true }
+    else none
+  | .stopCancel =>
+    -- HISTORICAL (variant `stopSwept := false`, the tree before /repo 883284c; finding C20-F11): `operator()` was cancelled while
+    -- `run_tasks` awaited `stop(root_pending)` (a stop flag or a failure first, the cancellation a moment later): that `await`
+    -- was outside any `try`, `operator()` ended at once, the root tasks that were still stopping — and the cleanup activity — ran
+    -- on after it had returned. The model stops describing that old code. (In the current tree: `rtCancel` from `stoppingRoots`.)
+    if s.rt = .stoppingRoots ∧ cfg.stopSwept = false ∧ allRootsEnded s = false then
+      some { s with abandoned := true }
     else none
   | .hungFail =>
     -- a task that is not a root task ends with an exception (e.g. the `stopped.wait(n)` helper of a daemon that is cancelled
@@ -768,6 +856,15 @@ def step (cfg : Cfg) (s : State) : Label → Option State
       -- later): `except CancelledError: stop(hung_tasks, cancelled=True); raise`
       match s.rt with
       | .hungWait _ => some { s with rt := .cStoppingHung }
+      -- … or while `run_tasks` stops the root tasks (a stop flag or a failure first, the cancellation a moment later): since
+      -- /repo 883284c (`stopSwept`) `except CancelledError: stop(root_tasks, cancelled=True); stop(hung_tasks, cancelled=True);
+      -- raise` — every root task that is still alive is cancelled AGAIN (see `cancelRootsV`, `scCut`, the killer's `rootEnd`).
+      -- (`startup_cleanup_activities` has taken its first cancellation by then: the tasks cancelled by `stop(root_pending)` run
+      -- before `run_tasks` itself is resumed with the CancelledError)
+      | .stoppingRoots =>
+        if cfg.stopSwept = true ∧ s.creq (.root .startupCleanup) = false then
+          some { s with rt := .cStoppingRoots, creq := cancelRootsV cfg s }
+        else none
       | _ => none
   | .rtHungWait =>
     if s.rt = .stoppingRoots ∧ allRootsEnded s = true then
@@ -817,13 +914,27 @@ def headNoSpawnWhileExiting : Bool := true
 def headWatchesCore : Bool := true
 
 /-- the orchestrator's `except CancelledError:` shields the stop of its ensemble (`asyncio.shield` in a loop, as in
-    `queueing.watcher`): the variant `cfg.orchShielded`. FALSE of the current tree (finding C20-F8: a stream failure followed
-    by a stop request double-cancels the orchestrator) -/
-def headShieldsStop : Bool := false
+    `queueing.watcher`): the variant `cfg.orchShielded`. TRUE of the current tree since /repo ab6fb15 (repair of finding
+    C20-F8: a stream failure followed by a stop request double-cancelled the orchestrator) -/
+def headShieldsStop : Bool := true
+
+/-- `spawn_tasks` wraps its final `await asyncio.sleep(0)` in a `try` that stops the created tasks on a cancellation: the
+    variant `cfg.spawnSwept`. TRUE of the current tree since /repo d6da86b (repair of finding C20-F10) -/
+def headSweepsSpawn : Bool := true
+
+/-- `run_tasks` wraps `await aiotasks.stop(root_pending, …)` in a `try` that handles a cancellation of `operator()`: the
+    variant `cfg.stopSwept`. TRUE of the current tree since /repo 883284c (repair of finding C20-F11) -/
+def headSweepsStop : Bool := true
+
+/-- `queueing.watcher` re-checks `worker_error` after the depletion of the workers (after `scheduler.close()`) and raises the
+    RuntimeError if it has not been raised yet: the variant `cfg.deplEscalates`. TRUE of the current tree since /repo 69d1957
+    (repair of finding C20-F5) -/
+def headEscalatesDepletion : Bool := true
 
 /-- the configuration of the model of the current tree -/
 def headCfg (e w d c h : Nat) : Cfg :=
   { fixed := headEscalates, coreWatched := headWatchesCore, orchShielded := headShieldsStop,
+    spawnSwept := headSweepsSpawn, stopSwept := headSweepsStop, deplEscalates := headEscalatesDepletion,
     E := e, W := w, D := d, C := c, H := h }
 
 /-- the sum of the grace periods of the tasks' `finally:` blocks: depletion, withdrawal, exit stoppers -/
@@ -832,6 +943,13 @@ def G (cfg : Cfg) : Nat := cfg.E + cfg.W + cfg.D
 /-- A label that is API activity / a handler call of some task. -/
 def Label.isActivity : Label → Bool
   | .act _ | .withdraw _ _ => true
+  | _ => false
+
+/-- The labels at which a run of a HISTORICAL variant leaves the model (each one a repaired finding: the old code went on in a
+    way the model does not describe); they set `abandoned` and nothing else. None is enabled when `cfg.orchShielded`,
+    `cfg.spawnSwept`, `cfg.stopSwept` are true (the current tree). -/
+def Label.leaves : Label → Bool
+  | .orchAbandon | .spawnCancel | .stopCancel => true
   | _ => false
 
 /-- Replay a label list. -/
@@ -866,13 +984,14 @@ def ReachC (cfg : Cfg) (s : State) : Prop := ∃ ls, runC cfg init ls = some s
 /-! ### internal steps: what the operator (and cooperative user code) does by itself -/
 
 /-- The label is a step of the framework itself or of cooperative user code reacting to it — NOT an action of the
-    environment: no new stop trigger (`setStopFlag`, `rtCancel`), no new failure of a stream, task or handler (a task
+    environment: no new stop trigger (`setStopFlag`, `rtCancel`; but the reactions to a repeated cancellation — `scCut`, the
+    killer's interrupted `finally:` — are internal), no new failure of a stream, task or handler (a task
     may end `failed` only as the consequence of an earlier failure: `stopping true`, a worker error, a failed core
     task), no new work (`subSpawn`, `workerStart`, `daemonSpawn`, `orphan`, `act`), no redundancy (`subGone`,
     `subCancel`). Used by the progress theorem `returns`: after a trigger the operator gets to `exited` on its own. -/
 def internal (s : State) : Label → Bool
   | .delay _ => true
-  | .scStartupBegin | .setStarted | .ready | .scWake | .scWaitRootsEnd | .scStopCore | .scCoreStopped
+  | .scStartupBegin | .setStarted | .ready | .scWake | .scWaitRootsEnd | .scCut | .scStopCore | .scCoreStopped
   | .vaultClosed => true
   | .scStartupEnd o => o != .failed
   | .scCleanupEnd o => o == .none
